@@ -82,7 +82,7 @@ Fixpoint hex_fuel (fuel : nat) (n : N) (acc : str) : str :=
            if n / 16 =? 0 then acc' else hex_fuel f (n / 16) acc'
   end.
 
-(* format(n, "x") *)
+(* format(n, "x"); the fuel suffices, hex n denotes n: hval_hex in HtmlToNodesProofs.v *)
 Definition hex (n : N) : str := hex_fuel (S (N.to_nat (N.log2 n))) n [].
 
 (* format(n, "0<w>x") *)
